@@ -399,7 +399,10 @@ def _transition_on(chk, repo, ci, iface, fn, src):
             acc_nodes = [n for n in g.nodes if n.ast is not None and n.kind == "stmt" and g.requires_edge(n, acc_t[0], "T")]
             acc_txt = {_norm(n.ast) for n in acc_nodes}
             if iface == "exp":
-                want = {f"self.current_point={b['x1']}", f"self.current_target_logd={b['l1']}", f"self.current_target_grad=np.copy({b['g1']})", "acc=1"}
+                # the acceptance indicator is whatever local the step returns
+                rn = {path_of(r_.ast.value) for r_ in g.returns() if r_.ast.value is not None}
+                flag = next(iter(rn)) if len(rn) == 1 and None not in rn else "acc"
+                want = {f"self.current_point={b['x1']}", f"self.current_target_logd={b['l1']}", f"self.current_target_grad=np.copy({b['g1']})", f"{flag}=1"}
                 ok_inst = acc_txt == want
             else:
                 inst_b, _ = unify(["$chain[:,$k]=$x1", "$lchain[$k]=$l1", "$gcur=np.copy($g1)"], [(t, n.ast) for t, n in zip([_norm(n.ast) for n in acc_nodes], acc_nodes)], b)
@@ -482,18 +485,36 @@ def _dual_averaging(chk, repo, ci, iface):
                     extra.append(f"dual-averaging update of `{attr}` is `{unparse(ex.expand(asg[0].ast.value, asg[0]))[:160]}`, not the documented "
                                  f"recursion (H_bar <- (1-1/(m+t0)) H_bar + (delta - alpha)/(m+t0); eps <- exp(mu - sqrt(m)/gamma H_bar); "
                                  f"eps_bar <- exp(m^-kappa log eps + (1-m^-kappa) log eps_bar))")
-        init = repo.method(ci, "_initialize")[1]
-        ti = _norm(init)
-        if "self._mu=np.log(10*self._epsilon)" not in ti:
-            extra.append("mu is not log(10 * initial epsilon)")
-        if "self._H_bar=0" not in ti:
-            extra.append("H_bar does not start at 0")
+        # initial values, read off the attribute stores at the end of every path (locals replaced by their bindings)
+        from ..pathtable import walk_paths
+        from ..pattern import norm as pn
+        from .common import canon_fn
+
+        def end_states(meth, valuation=None):
+            from .common import canon_keep
+            # small private setters are inlined; the routines that run the sampler (step-size search, initialisation) stay calls
+            v = canon_keep(repo, ci, repo.method(ci, meth)[1], keep={"_FindGoodEpsilon", "_ensure_initialized", "_initialize", "_nuts_target", "_Leapfrog", "_BuildTree"})
+            ends = walk_paths(v, dict(valuation or {}), pn)
+            if any(k_ in ("unknown", "loop") for k_, _ in ends):
+                return None
+            return [r for k_, r in ends if k_ == "fall"] + [r._env for k_, r in ends if k_ == "return" and hasattr(r, "_env")]
+        envs = end_states("_initialize")
+        if not envs:
+            extra.append("_initialize: paths not decidable")
+        for env in envs or []:
+            mu, e0, hb = env.get("self._mu"), env.get("self._epsilon"), env.get("self._H_bar")
+            ok_mu = mu is not None and e0 is not None and pn(mu) in (pn("np.log(10*self._epsilon)"), "np.log(10*" + pn(e0) + ")", "np.log(10*(" + pn(e0) + "))")
+            if not ok_mu:
+                extra.append("mu is not log(10 * initial epsilon)")
+            if hb is None or pn(hb) != "0":
+                extra.append("H_bar does not start at 0")
         st = repo.method(ci, "step")[1]
         if "self._epsilon=self._epsilon_bar" not in _norm(st):
             extra.append("after the transition epsilon is not set to epsilon_bar")
-        ps = repo.method(ci, "_pre_sample")[1]
-        if "self._epsilon_bar=self._epsilon" not in _norm(ps):
+        envs = end_states("_pre_sample", {pn("self._epsilon_bar=='unset'"): True})
+        if not envs or not all(e_.get("self._epsilon_bar") is not None and pn(e_["self._epsilon_bar"]) == "self._epsilon" for e_ in envs):
             extra.append("without warm-up epsilon_bar is not the initial epsilon")
+        extra = sorted(set(extra))
         chk.add("C08-R5", f"{ci.qual}.tune", not extra, site(repo, fn), "Hoffman & Gelman Alg. 6 dual averaging", "; ".join(extra), fn)
     else:
         fn = repo.method(ci, "_sample")[1]
